@@ -4,8 +4,8 @@
  * state through accessor functions.  vlib.build_harness skips the library's own copy of
  * fiber_event_native.c whenever this file is listed in a part's `extra_srcs`.
  *
- * SHARED FILE (C08 + C09): append new accessors in your own section, never change an
- * existing one.
+ * Used by harness/io.c (C08).  (C09 has its own unity wrapper, harness/wrap_sleep.c.)  Append new
+ * accessors, never change an existing one.
  */
 #include "fiber_event_native.c"
 
@@ -21,4 +21,3 @@ long vw_event_max_fd(void) { return max_fd; }
 int vw_event_fd(void) { return event_fd; }
 int vw_timer_fd(void) { return timer_fd; }
 
-/* ---------------------------------------------------------------- C09 (sleep harness) */
